@@ -22,7 +22,7 @@ func init() {
 			"centre = midpoint; centre -> ID at the same zooms returns the ID exactly; two random interior points (25 % margin) map back to the ID; east(x)==west(x+1) (+-180 identified at the wrap), south(y)==north(y+1), top(f)==bottom(f+1) compared bitwise on the returned floats. " +
 			"Non-trivial = h+v > 0; distinct by ID.",
 		Assume: []string{"latitude tolerance 1.2e-10 deg = documented truncation + float error of the inverse Mercator", "centre of a voxel is >= 4.5e-10 deg inside it even at h=35 near the latitude limit, so the round trip needs no band"},
-		N:      tierN(120_000, 5_000_000),
+		N:      tierN(250_000, 5_000_000),
 		Floor:  tierN(1000, 10000),
 		Run:    runC02,
 	})
